@@ -313,11 +313,11 @@ fn coalesce_text(mut n: ANode) -> ANode {
 
 /// exclusion predicate of KF-C07-2: copy / move of an element whose type differs from the type the
 /// destination prescribes for its name (the copy keeps the source's type)
-fn copy_keeps_foreign_type(w: &mut World, o: &Op) -> bool {
-    if !matches!(o.code, op::COPY | op::COPY_AT | op::MOVE | op::MOVE_AT) {
+pub fn copy_keeps_foreign_type(w: &mut World, o: &Op) -> bool {
+    if !matches!(o.code, op::COPY | op::COPY_AT | op::MOVE | op::MOVE_AT | op::COPY_X) {
         return false;
     }
-    let Some((pid, sid)) = w.peek_copy_move(o) else { return false };
+    let Some((pid, sid)) = (if o.code == op::COPY_X { w.peek_copy_x(o) } else { w.peek_copy_move(o) }) else { return false };
     let (parent, src) = (w.elems[pid].clone(), w.elems[sid].clone());
     let Ok(version) = parent.min_version() else { return false };
     match parent.element_type().find_sub_element(src.element_name(), version as u32) {
